@@ -17,7 +17,7 @@ def hx(b):
 class C13(Prop):
     id = "C13"
     title = "Input framing ignores packet boundaries and survives any byte stream"
-    lean_modules = ["NV.C13.Props", "NV.C13.Witness", "NV.C13.Negative", "NV.C13.TableTie", "NV.C13.XTable", "NV.C13.Lemmas18", "NV.C13.Lemmas19", "NV.C13.Lemmas20", "NV.C13.Lemmas21"]
+    lean_modules = ["NV.C13.Props", "NV.C13.Witness", "NV.C13.Negative", "NV.C13.TableTie", "NV.C13.XTable", "NV.C13.Lemmas18", "NV.C13.Lemmas19", "NV.C13.Lemmas20", "NV.C13.Lemmas21", "NV.C13.Lemmas22"]
     theorems = ["NV.C13.ts_layout", "NV.C13.sb_array_has_room", "NV.C13.sb_in_bounds", "NV.C13.copy_chars_expansion",
                 "NV.C13.buffer_writes_in_bounds", "NV.C13.space_rule_sufficient", "NV.C13.space_rule_numbers",
                 "NV.C13.input_never_overflows", "NV.C13.segmentation_independent",
@@ -35,7 +35,8 @@ class C13(Prop):
                 "NV.C13.reframe_is_line_framing", "NV.C13.getUserData_evok", "NV.C13.run_events_safe",
                 "NV.C13.reframe_exact", "NV.C13.typeahead_lines_after_mode_end", "NV.C13.workerChunks_len", "NV.C13.doWpipe_rinv",
                 "NV.C13.getUserDataH_cases", "NV.C13.getUserDataH_keeps", "NV.C13.holdRead_true", "NV.C13.discard_only_unfinished",
-                "NV.C13.typeahead_never_discarded", "NV.C13.readTail_rinv"]
+                "NV.C13.typeahead_never_discarded", "NV.C13.readTail_rinv",
+                "NV.C13.binary_read_exact", "NV.C13.binary_bytes_delivered"]
     witness_theorems = ["NV.C13.sb_terminator_overflows_exact_array", "NV.C13.ayt_returns_to_data",
                         "NV.C13.full_sb_payload_is_not_text", "NV.C13.ascii_spec_example",
                         "NV.C13.burst_check"]
